@@ -781,14 +781,49 @@ FILE_KINDS = {
     "bad-expression": ("# SPDX-FileCopyrightText: 2020 J\n# SPDX-License-Identifier: MIT OR\n", "e"),
     "bad-expression-paren": ("# SPDX-License-Identifier: (MIT\n", "e"),
     "vanishes": (None, "x"),
+    # what os.walk lists among the files of a directory but is no regular file: nothing may open it (a FIFO without a writer blocks
+    # in open() for ever); the tool's answer is "not a file": a read error
+    "fifo": (None, "x"),
+    "socket": (None, "x"),
+    "chardev": (None, "x"),
 }
+SPECIAL_KINDS = ("fifo", "socket", "chardev")
 LINT_VARIANTS = ["lint-json", "lint", "lint-lines", "lint-file", "spdx"]
+
+
+def make_special(root, rel, what):
+    """a FIFO / UNIX socket / character device (1,3) at root/rel (c14_runs.make_special: FIFO where the sandbox refuses the others)"""
+    import c14_runs
+    return c14_runs.make_special(root, rel, what)
+
+
+def safe_snapshot(root):
+    """cli.snapshot that does not open what is not a regular file (opening a FIFO would block the harness itself)"""
+    import stat
+    snap = {}
+    for dp, dn, fn in os.walk(root):
+        for n in dn + fn:
+            p = os.path.join(dp, n)
+            rel = os.path.relpath(p, root)
+            st = os.lstat(p)
+            if stat.S_ISLNK(st.st_mode):
+                snap[rel] = ("link", os.readlink(p))
+            elif stat.S_ISDIR(st.st_mode):
+                snap[rel] = ("dir", "")
+            elif stat.S_ISREG(st.st_mode):
+                with open(p, "rb") as fp:
+                    snap[rel] = ("file", fp.read())
+            else:
+                snap[rel] = ("special", b"%d" % stat.S_IFMT(st.st_mode))
+    return snap
 
 
 class PerFileStream(Stream):
     name = "perfile"
+    MAX_TIMEOUTS = 1  # one command had to be killed: the remaining projects are not run ("skipped"), a hang costs one time limit
     rule = ("seeded lists of 3-9 covered files of %d kinds (good, partial, Latin-1, invalid UTF-8, NUL, binary, 1 MB lines, "
-            "unparseable expressions, vanishing between the directory walk and the read, files under a dep5 paragraph whose licence "
+            "unparseable expressions, vanishing between the directory walk and the read, a FIFO without a writer / UNIX socket / character "
+            "device in the place of a covered file (every fourth project has one), files under a dep5 paragraph whose licence "
             "cannot be parsed) in random order (quick 120 / thorough 1200 projects) through `reuse lint --json` (read-error set, "
             "per-file information, exit status compared with the model's generate/lintEnd fed the generator's kinds) and through "
             "lint, lint --lines, lint-file, spdx (oracle only)" % len(FILE_KINDS))
@@ -801,6 +836,8 @@ class PerFileStream(Stream):
             ks = [rng.choice(kinds) for _ in range(k)]
             if i % 3 == 0 and "vanishes" not in ks:
                 ks[rng.randrange(k)] = "vanishes"
+            if i % 4 == 1 and not set(ks) & set(SPECIAL_KINDS):
+                ks[rng.randrange(k)] = rng.choice(SPECIAL_KINDS)
             yield {"kinds": ks, "dep5_bad": rng.random() < 0.25, "variant": LINT_VARIANTS[i % len(LINT_VARIANTS)] if i % 2 else "lint-json"}
 
     def layout(self, case):
@@ -823,10 +860,14 @@ class PerFileStream(Stream):
             tree = {"LICENSES/MIT.txt": "MIT text\n"}
             for rel, k, _ in lay:
                 content = FILE_KINDS[k][0]
-                tree[rel] = content if content is not None else HDR + "soon gone\n"
+                if k not in SPECIAL_KINDS:
+                    tree[rel] = content if content is not None else HDR + "soon gone\n"
             if case["dep5_bad"]:
                 tree[DEP5_REL] = CLI_DEP5_OK.replace("data/*", "pool/*").replace("License: MIT", "License: MIT OR")
             cli.write_tree(root, tree)
+            for rel, k, _ in lay:
+                if k in SPECIAL_KINDS:
+                    make_special(root, rel, k)
             victims = {os.path.basename(rel) for rel, k, _ in lay if k == "vanishes"}
             orig = rp.iter_files
 
@@ -892,6 +933,8 @@ class PerFileStream(Stream):
                 return "lost-file: %s (%s) is %s" % (rel, k, "both a read error and a report" if rel in re_ else "neither a read error nor reported")
             if k == "vanishes" and rel not in re_:
                 return "unreadable-not-reported: vanished %s is not a read error" % rel
+            if k in ("fifo", "socket") and rel not in re_:
+                return "unreadable-not-reported: %s is a %s, not a file that can be read, and is not a read error" % (rel, k)
             if k in ("good", "nul", "latin1", "long-line") and code == "r11" and reps.get(rel) != "11":
                 return "neighbour-disturbed: %s (%s) should carry copyright and licence, has %s" % (rel, k, reps.get(rel, "a read error"))
             if k.startswith("bad-expression") and code == "e" and reps.get(rel) != "00":
@@ -924,13 +967,19 @@ ANN_KINDS = {
     "truncated-utf8": ("# caf\xe9".encode("utf-8")[:-1], "u"),
     "undecodable-after-1k": (b"print(1)\n" * 200 + b"# caf\xe9\n", "u"),
     "vanishes": (None, "v"),
+    # no regular file (made with make_special): annotate must neither open nor replace it; the model has no such path kind, so a
+    # case with one of these is judged by the oracle only
+    "fifo": (None, "s"),
+    "socket": (None, "s"),
+    "chardev": (None, "s"),
 }
 
 
 class AnnotateStream(Stream):
     name = "annotate"
+    MAX_TIMEOUTS = 1  # see PerFileStream
     rule = ("seeded lists of 1-6 paths of %d kinds (text, NUL, CRLF, 1 MB line, existing unparseable expression, Latin-1 / cp1252, lone continuation "
-            "byte, overlong, surrogate and truncated UTF-8, an undecodable byte after the first kilobyte, vanishing after argument validation) given to one `reuse annotate` (quick 150 / thorough 1500 runs, plus every "
+            "byte, overlong, surrogate and truncated UTF-8, an undecodable byte after the first kilobyte, vanishing after argument validation, a FIFO / socket / character device) given to one `reuse annotate` (quick 150 / thorough 1500 runs, plus every "
             "kind alone): per-path outcome (header written / not) and exit status vs the model's annotateLoop/annotateEnd; oracle: no "
             "traceback, exit in {0,1}, 1 iff some path is unreadable, readable paths annotated whatever their position, unreadable "
             "paths byte-identical" % len(ANN_KINDS))
@@ -942,7 +991,7 @@ class AnnotateStream(Stream):
         for k in kinds:
             # generator precondition: the undecodable kinds are text for binaryornot (a binary file gets a .license sibling instead)
             c = ANN_KINDS[k][0]
-            if ANN_KINDS[k][1] == "u" and is_binary_string(c[:1024]):
+            if ANN_KINDS[k][1] == "u" and is_binary_string(c[:1024]):  # noqa
                 raise RuntimeError("generator precondition: kind %s is binary for binaryornot" % k)
             yield {"kinds": [k]}
         n = 1500 if tier == "thorough" else 150
@@ -960,9 +1009,13 @@ class AnnotateStream(Stream):
             tree = {}
             for rel, k in lay:
                 c = ANN_KINDS[k][0]
-                tree[rel] = c if c is not None else "print('soon gone')\n"
+                if k not in SPECIAL_KINDS:
+                    tree[rel] = c if c is not None else "print('soon gone')\n"
             cli.write_tree(root, tree)
-            before = cli.snapshot(root)
+            for rel, k in lay:
+                if k in SPECIAL_KINDS:
+                    make_special(root, rel, k)
+            before = safe_snapshot(root)
             victims = {rel for rel, k in lay if k == "vanishes"}
             orig = ra.is_binary
 
@@ -978,7 +1031,7 @@ class AnnotateStream(Stream):
                 ra.is_binary = orig
             if exc is not None:
                 return "traceback:" + ("OSError" if isinstance(exc, OSError) else type(exc).__name__)
-            after = cli.snapshot(root)
+            after = safe_snapshot(root)
             flags = []
             for rel, k in lay:
                 a = after.get(rel)
@@ -995,6 +1048,8 @@ class AnnotateStream(Stream):
 
     def model_lines(self, case):
         lay = self.layout(case)
+        if any(ANN_KINDS[k][1] == "s" for _, k in lay):
+            return []
         return ["annotate\t%s\t%s" % (enc_list([rel for rel, _ in lay]), " ".join(ANN_KINDS[k][1] for _, k in lay))]
 
     def model_out(self, case, outs):
@@ -1010,12 +1065,14 @@ class AnnotateStream(Stream):
         if code not in ("0", "1"):
             return "exit-status: %s" % code
         unreadable = [rel for rel, k in lay if ANN_KINDS[k][1] in ("u", "v")]
-        if (code == "1") != bool(unreadable):
+        special = [rel for rel, k in lay if ANN_KINDS[k][1] == "s"]
+        # a named path that is no regular file: whether passing over it counts as success is not said anywhere; exit 0 and 1 both pass
+        if (code == "1") != bool(unreadable) and not (special and not unreadable):
             return "exit-status: exit %s with unreadable paths %s" % (code, unreadable)
         for (rel, k), f in zip(lay, flags):
             if ANN_KINDS[k][1] == "t1" and f != "c":
                 return "neighbour-disturbed: readable %s (%s) was not annotated" % (rel, k)
-            if ANN_KINDS[k][1] in ("u", "v") and f != "f":
+            if ANN_KINDS[k][1] in ("u", "v", "s") and f != "f":
                 return "unreadable-changed: %s (%s) was modified" % (rel, k)
         if m.group(3):
             return "debris: new files %s" % m.group(3)
@@ -1119,7 +1176,7 @@ class TemplateStream(Stream):
 # stream 7: files and directories that vanish WHILE the tree is being walked (between the directory listing and the questions
 # the walk asks about each listed name) -- oracle only
 
-TIME_LIMIT = 20.0   # seconds for one command over a tiny project; the slowest legitimate case (1 MB lines) takes well under a second
+TIME_LIMIT = 40.0   # seconds for one command over a tiny project; the slowest legitimate case (1 MB lines) takes well under a second
 
 RACE_CONTENT = {
     "good": HDR + "print(1)\n", "bare": "print(1)\n", "copyright-only": "# SPDX-FileCopyrightText: 2020 Jane\n",
@@ -1143,6 +1200,10 @@ def race_case(rng, cmd):
             k = rng.choice(kinds) if rng.random() < 0.5 else "good"
             files["%s%s_%d.py" % (d + "/" if d else "", k.replace("-", "_"), i)] = k
     config = rng.choice(["none", "none", "toml", "nested-toml", "dep5"])
+    if rng.random() < 0.35:  # and what is listed among the files of a directory without being a regular file
+        for j in range(rng.randint(1, 2)):
+            d = rng.choice([x for x in dirs if x != "LICENSES"])  # a FIFO as licence text blocks the unchanged tool too: recorded boundary
+            files["%sspecial_%d.py" % (d + "/" if d else "", j)] = rng.choice(["fifo", "fifo", "socket", "chardev"])
     all_dirs = set()
     for f in files:
         d = os.path.dirname(f)
@@ -1169,8 +1230,9 @@ def race_case(rng, cmd):
 
 class WalkRaceStream(Stream):
     name = "walkrace"
+    MAX_TIMEOUTS = 1  # see PerFileStream
     rule = ("seeded trees (2-5 directories, nested, 3-16 files, with none / REUSE.toml / nested REUSE.toml / dep5) from which 1-4 files "
-            "and directories vanish WHILE reuse walks them: either as soon as their directory has been listed (os.walk hands out names "
+            "and directories vanish WHILE reuse walks them (a third of the trees also hold one or two FIFOs / sockets / character devices): either as soon as their directory has been listed (os.walk hands out names "
             "that no longer exist) or at a question the walk asks its VCS strategy about a chosen sibling, in the first, second or third walk of the command (project loading looks for REUSE.toml files, then the covered files are collected) (quick 105 / thorough "
             "1400 runs), through lint, lint --json, lint --lines, lint-file, spdx, annotate --recursive, download --all; oracle only: no "
             "traceback, exit status 0 or 1 (the configuration is valid, so never a usage error), and with lint --json every file that did not vanish is still reported (report or "
@@ -1192,7 +1254,8 @@ class WalkRaceStream(Stream):
         with cli.scratch("rv-c16w-") as root, no_network():
             tree = {"LICENSES/MIT.txt": "MIT text\n"}
             for rel, k in files.items():
-                tree[rel] = RACE_CONTENT[k]
+                if k not in SPECIAL_KINDS:
+                    tree[rel] = RACE_CONTENT[k]
             if case["config"] in ("toml", "nested-toml"):
                 tree[TOML_REL] = CLI_TOML_OK
             if case["config"] == "nested-toml":
@@ -1200,6 +1263,9 @@ class WalkRaceStream(Stream):
             elif case["config"] == "dep5":
                 tree[DEP5_REL] = CLI_DEP5_OK
             cli.write_tree(root, tree)
+            for rel, k in files.items():
+                if k in SPECIAL_KINDS:
+                    make_special(root, rel, k)
             real_root = os.path.realpath(root)
             gone = []
 
@@ -1268,7 +1334,7 @@ class WalkRaceStream(Stream):
 
     def covered(self, case):
         """Generator ground truth: the generated files that are covered files (not empty, not below LICENSES/ or a Meson subproject)."""
-        return sorted(r for r, k in case["files"].items() if k != "empty" and not r.startswith(("LICENSES/", "subprojects/")))
+        return sorted(r for r, k in case["files"].items() if k != "empty" and k not in SPECIAL_KINDS and not r.startswith(("LICENSES/", "subprojects/")))
 
     def oracle(self, case, impl_out):
         if impl_out.startswith("timeout"):
@@ -1294,6 +1360,10 @@ class WalkRaceStream(Stream):
                 return "lost-file: %s is both a read error and a report" % rel
             if not lost and rel not in reps:
                 return "neighbour-disturbed: %s did not vanish but is %s" % (rel, "a read error" if rel in re_ else "not reported")
+        for rel, k in case["files"].items():
+            if k in ("fifo", "socket") and not rel.startswith(("LICENSES/", "subprojects/")) \
+                    and not any(rel == g or rel.startswith(g + "/") for g in gone) and rel not in re_:
+                return "unreadable-not-reported: %s is a %s, not a file that can be read, and is not a read error" % (rel, k)
         if re_ and m.group(1) != "1":
             return "exit-status: read errors but exit %s" % m.group(1)
         return None
@@ -1348,7 +1418,9 @@ class TerminationStream(Stream):
     name = "terminates"
     rule = ("termination: projects of 1-6 files whose tag lines (SPDX-FileCopyrightText, SPDX-SnippetCopyrightText, Copyright, (c) forms, "
             "SPDX-License-Identifier, SPDX-FileContributor, in ten comment framings, in the file or in its .license sibling, inside an "
-            "SPDX snippet, after up to 400 other lines, also as REUSE.toml / dep5 values) carry runs of 20-200 blanks, tabs, comment "
+            "SPDX snippet, after up to 400 other lines, also as REUSE.toml / dep5 values; four projects in ten also hold 1-3 FIFOs without a "
+            "writer / UNIX sockets / character devices where a covered file is expected, named on the command line where the command "
+            "takes paths) carry runs of 20-200 blanks, tabs, comment "
             "terminators, `*`, `-`, `/`, `>`, quotes and mixtures IN THE MIDDLE of the value (text follows the run), through lint, lint "
             "--json, lint --lines, lint-file, spdx, annotate, download --all (quick 84 / thorough 1400 runs); each run happens in a child "
             "process that is killed after %g s: oracle = the command finished (else 'does not terminate'), no traceback, exit status in "
@@ -1373,7 +1445,15 @@ class TerminationStream(Stream):
                         name += ".license"
                     files[name] = "\n".join(lines) + "\n"
                 extra = rng.choice(["none", "none", "toml", "dep5"])
-                yield {"files": files, "extra": extra, "value": HEADS[0] + run_of(rng) + TAILS[0], "cmd": cmd}
+                case = {"files": files, "extra": extra, "value": HEADS[0] + run_of(rng) + TAILS[0], "cmd": cmd}
+                if rng.random() < 0.4:
+                    # blocking I/O instead of a slow regular expression: a FIFO nobody writes to, a socket, a device where a covered
+                    # file is expected (never as .license sibling, REUSE.toml or below LICENSES/: see the claim note)
+                    case["specials"] = sorted(
+                        (rng.choice(["", "", "run/", "src/deep/"]) + rng.choice(["events.pipe", "ctl", "s%d.py" % j, "log.txt", "\u00fc.sock"]),
+                         rng.choice(["fifo", "fifo", "socket", "chardev"])) for j in range(rng.randint(1, 3)))
+                    case["specials"] = [list(x) for x in dict(case["specials"]).items() if x[0] not in files]
+                yield case
 
     MAX_TIMEOUTS = 2  # two commands had to be killed: the point is made, do not wait for the time limit again and again ("skipped")
 
@@ -1386,7 +1466,9 @@ class TerminationStream(Stream):
             elif case["extra"] == "dep5":
                 tree[DEP5_REL] = CLI_DEP5_OK.replace("data/*", "f0.*").replace("2020 Jane", case["value"])
             cli.write_tree(root, tree)
-            names = sorted(f for f in case["files"] if not f.endswith(".license"))
+            for rel, what in case.get("specials", []):
+                make_special(root, rel, what)
+            names = sorted([f for f in case["files"] if not f.endswith(".license")] + [rel for rel, _ in case.get("specials", [])])
             args = TERM_COMMANDS[case["cmd"]]
             if case["cmd"] == "lint-file":
                 args = ["lint-file"] + names
@@ -1409,10 +1491,11 @@ class TerminationStream(Stream):
         return None
 
     def nontrivial(self, case, impl_out):
-        return (case["cmd"], case["extra"], impl_out, len(case["files"]))
+        return (case["cmd"], case["extra"], impl_out, len(case["files"]), tuple(sorted(w for _, w in case.get("specials", []))))
 
     def show(self, case):
         return {"cmd": case["cmd"], "extra": case["extra"], "value": case["value"] if case["extra"] != "none" else None,
+                "specials": case.get("specials", []),
                 "files": {k: v if len(v) < 1500 else v[:700] + " ... " + v[-700:] for k, v in case["files"].items()}}
 
 
@@ -1750,9 +1833,19 @@ def bounded(stream_cls):
         if impl_out.startswith("timeout"):
             return "does-not-terminate: `reuse %s` did not finish within %s s (killed)" % (
                 case.get("cmd") or case.get("variant") or "annotate", impl_out.split(":")[1])
+        if impl_out == "skipped":  # MAX_TIMEOUTS commands of this stream had to be killed already
+            return None
         return inner_oracle(self, case, impl_out)
 
-    stream_cls.cases, stream_cls.impl, stream_cls.oracle = cases, impl, oracle
+    inner_agree, inner_nontrivial = stream_cls.agree, stream_cls.nontrivial
+
+    def agree(self, case, impl_out, model_out):
+        return impl_out == "skipped" or inner_agree(self, case, impl_out, model_out)
+
+    def nontrivial(self, case, impl_out):
+        return None if impl_out == "skipped" or impl_out.startswith("timeout") else inner_nontrivial(self, case, impl_out)
+
+    stream_cls.cases, stream_cls.impl, stream_cls.oracle, stream_cls.agree, stream_cls.nontrivial = cases, impl, oracle, agree, nontrivial
     return stream_cls
 
 
